@@ -363,3 +363,13 @@ def diff_answers(cases, h, m):
 
 def mkrng(seed, salt):
     return random.Random(int(hashlib.sha256(f'{seed}:{salt}'.encode()).hexdigest()[:16], 16))
+
+
+def known_findings():
+    return json.load(open(f'{VERIF}/known_findings.json'))
+
+
+def plain_kind(p):
+    """parse bbm 'plain' answer: returns (kind, steps) kind in limit/halt:s,c/spinout"""
+    a, n = p.split('|')
+    return a, int(n)
